@@ -529,7 +529,7 @@ def replay(ob):
             except Exception as e:  # noqa
                 return {"confirmed": True, "text": f"{cl} with axis {ax!r} on a grid whose axes are called {wit['names'][:2]}: real code raised {type(e).__name__}: {e} (the same call on axes X, Y succeeds)"}
         if part == "ufunc":
-            return {"confirmed": True, "text": f"apply_as_grid_ufunc / as_grid_ufunc with signature {wit['sig']} ({wit['way']}): {wit['clause']} - {wit.get('detail')} (symbolic run of the real code; the same signature with dummies X, Y is handled as prescribed)"}
+            return {"confirmed": False, "text": f"apply_as_grid_ufunc / as_grid_ufunc with signature {wit['sig']} ({wit['way']}): {wit['clause']} - {wit.get('detail')} (symbolic run of the real code; the same signature with dummies X, Y is handled as prescribed)"}
         if part == "transform":
             nw = NativeWorld({})
             cl = wit["clause"]
@@ -575,7 +575,7 @@ def replay(ob):
                 except Exception as e:  # noqa
                     return {"confirmed": True, "text": f"grid.transform on data with an extra dimension called 'temp_unique' raised {type(e).__name__}: {e}"}
         if part == "pad":
-            return {"confirmed": True, "text": f"padding across an axis-swapping link with axes named {wit['names'][:2]}: {wit.get('detail')} (symbolic run of the real code)"}
+            return {"confirmed": False, "text": f"padding across an axis-swapping link with axes named {wit['names'][:2]}: {wit.get('detail')} (symbolic run of the real code)"}
     except Exception as e:  # noqa
         import traceback
         return {"confirmed": False, "text": f"replay failed: {type(e).__name__}: {e}\n{traceback.format_exc(limit=-2)}"}
